@@ -37,6 +37,7 @@ type Loop struct {
 	SplitVals  []*cexpr.Node
 	Havoc      []*cexpr.Node // extra havoc targets
 	Keep       []*cexpr.Node
+	AutoDone   bool
 }
 
 // Call is an annotation attached to a call site "at call name#k".
@@ -75,6 +76,16 @@ type Func struct {
 	Uses     []*cexpr.Node       // lemma / axiom instances assumed at every exit before the ensures
 }
 
+// Sweep asks for thin safety-only contracts on every function matching a pattern.
+type Sweep struct {
+	Pattern  string
+	Unit     string
+	Raises   bool
+	Props    []string
+	Requires []Clause // template: required by and used as loop invariant of every swept function
+	Ensures  []Clause
+}
+
 // Pred is a named predicate or macro.
 type Pred struct {
 	Name   string
@@ -98,6 +109,7 @@ type Lemma struct {
 
 // File is a parsed contract file.
 type File struct {
+	Sweeps []Sweep
 	Path   string
 	Pkg    string
 	Funcs  []*Func
@@ -113,7 +125,7 @@ var keywords = map[string]bool{
 	"readonly": true, "loop": true, "invariant": true, "variant": true, "let": true, "use": true,
 	"split": true, "ghost": true, "raises": true, "inline": true, "exact": true, "trusted": true,
 	"at": true, "assert": true, "assume": true, "lemma": true, "opt": true, "havoc": true, "with": true,
-	"pure": true, "keep": true, "end": true,
+	"pure": true, "keep": true, "end": true, "sweep": true,
 }
 
 // ParseFile reads a contract file. pkg is the package path the file belongs to.
@@ -167,6 +179,7 @@ func Parse(text, path, pkg string) (*File, error) {
 	var curLoop *Loop
 	var curCall *Call
 	var curLemma *Lemma
+	var curSweep *Sweep
 	var curAssert string
 	_ = curAssert
 	perr := func(rc rawClause, e error) error { return fmt.Errorf("%s:%d: %v", path, rc.line, e) }
@@ -209,10 +222,27 @@ func Parse(text, path, pkg string) (*File, error) {
 		case "unit":
 			unit = rc.text
 		case "func":
+			curSweep = nil
 			cur = &Func{Key: rc.text, Pkg: pkg, Unit: unit, Loops: map[int]*Loop{}, Opts: map[string]string{}, File: path, Line: rc.line, Asserts: map[string][]Clause{}}
 			f.Funcs = append(f.Funcs, cur)
 			curLoop, curCall, curLemma = nil, nil, nil
 		case "end":
+			cur, curLoop, curCall, curLemma = nil, nil, nil, nil
+		case "sweep":
+			// sweep [raises] <regexp over function keys>
+			sw := Sweep{Unit: unit}
+			txt := rc.text
+			if strings.HasPrefix(txt, "raises ") {
+				sw.Raises = true
+				txt = strings.TrimSpace(strings.TrimPrefix(txt, "raises "))
+			}
+			if m := tagRe.FindStringSubmatch(txt); m != nil {
+				txt = txt[len(m[0]):]
+				sw.Props = strings.Fields(m[1])
+			}
+			sw.Pattern = txt
+			f.Sweeps = append(f.Sweeps, sw)
+			curSweep = &f.Sweeps[len(f.Sweeps)-1]
 			cur, curLoop, curCall, curLemma = nil, nil, nil, nil
 		case "pred":
 			k := strings.Index(rc.text, "=")
@@ -304,6 +334,21 @@ func Parse(text, path, pkg string) (*File, error) {
 					curLemma.Requires = append(curLemma.Requires, c)
 					continue
 				}
+			}
+			if curSweep != nil && cur == nil {
+				c, err := clause(rc)
+				if err != nil {
+					return nil, err
+				}
+				switch rc.kw {
+				case "requires":
+					curSweep.Requires = append(curSweep.Requires, c)
+				case "ensures":
+					curSweep.Ensures = append(curSweep.Ensures, c)
+				default:
+					return nil, perr(rc, fmt.Errorf("clause %q not allowed in a sweep template", rc.kw))
+				}
+				continue
 			}
 			if cur == nil {
 				return nil, perr(rc, fmt.Errorf("clause %q outside func", rc.kw))
